@@ -130,7 +130,7 @@ func c19Sig(o *rt.Outcome) string {
 
 func c19(ctx *core.Ctx) {
 	quietLogs()
-	ctx.Rule("generated configurations (route table on the router's full template fragment, recording filters at all three levels labelled with their route/service, a filter writing a per-request attribute and a per-request key into PathParameters(), a HandleWithFilter handler, handlers that read the raw request body, an echo route reading gzip-encoded entities that arrive in small slices, 0-5 extra container filters, CORS filter with configured or computed methods, OPTIONS filter, content encoding, handlers writing raw bytes or negotiated entities, streaming handlers that Flush their first chunk, handlers switching PrettyPrint off for their own entity; both routers; Dispatch or ServeHTTP). For each request of a multiset of 40 (hits, near misses, adversarial, malformed Accept, CORS actual and preflight requests for different URLs, Accept-Encoding) the reference is the answer of a FRESH container to that request alone through the same entry point. Then (a) a 200-request sequential history in random order with repetitions, every 5th step preceded by the same request from a client whose connection fails on every body write, (b) batches released together from 16 goroutines, (c) the sequential history again with trace logging on: status, all headers, decoded body, path parameters, selected route and attributes seen by every filter/handler must equal the reference. Race detector on. Non-trivial = a compared response of a request that ran at least one filter or handler; distinct by (configuration shape, phase, outcome class).")
+	ctx.Rule("generated configurations (route table on the router's full template fragment, recording filters at all three levels labelled with their route/service, a filter writing a per-request attribute and a per-request key into PathParameters(), a HandleWithFilter handler, handlers that read the raw request body, an echo route reading gzip-encoded entities that arrive in small slices, 0-5 extra container filters, CORS filter with configured or computed methods, OPTIONS filter, content encoding, handlers writing raw bytes or negotiated entities, streaming handlers that Flush their first chunk, handlers switching PrettyPrint off for their own entity; both routers; Dispatch or ServeHTTP). For each request of a multiset of 40 (hits, near misses, adversarial, malformed Accept, CORS actual and preflight requests for different URLs, Accept-Encoding) the reference is the answer of a FRESH container to that request alone through the same entry point. Then (a) a 200-request sequential history in random order with repetitions, every 5th step preceded by the same request from a client whose connection fails on every body write, (b) batches released together from 16 (now and then 70) goroutines, (c) the sequential history again with trace logging on: status, all headers, decoded body, path parameters, selected route and attributes seen by every filter/handler must equal the reference. Race detector on. Non-trivial = a compared response of a request that ran at least one filter or handler; distinct by (configuration shape, phase, outcome class).")
 	ctx.Assume("the reference is per (request, entry point): ServeHTTP answers unregistered prefixes from net/http's mux")
 	defer restful.EnableTracing(false)
 	configs := ctx.N(50, 1500)
@@ -296,10 +296,15 @@ func c19(ctx *core.Ctx) {
 			compare(i, rt.Run(c, cf.Entry, &reqs[i]), "sequential")
 		}
 		// (b) concurrent batches
+		workers := 16
+		if ci%16 == 3 || ci%16 == 10 {
+			workers = 70 // more requests at the same moment than any power-of-two sized structure up to 64 holds
+			ctx.Count("wide_concurrent_batches", 1)
+		}
 		for batch := 0; batch < 2; batch++ {
 			var wg sync.WaitGroup
 			var ready, gate int32
-			for g := 0; g < 16; g++ {
+			for g := 0; g < workers; g++ {
 				wg.Add(1)
 				go func(g int) {
 					defer wg.Done()
@@ -313,7 +318,7 @@ func c19(ctx *core.Ctx) {
 					}
 				}(g)
 			}
-			for atomic.LoadInt32(&ready) < 16 {
+			for atomic.LoadInt32(&ready) < int32(workers) {
 				runtime.Gosched()
 			}
 			atomic.StoreInt32(&gate, 1)
